@@ -213,6 +213,29 @@ static void c08_run(int shard, int nshards, const hz::Args& a, hz::Result& r) {
       for (const Panel& p : P) c08_one(fmt, p, r);
     }
   }
+  // (b) all sequences of up to 3 UNITS (whole specifiers, escapes, literals that look like conversion
+  //     letters, dangling prefixes): adjacency of strftime-delegated runs, doubled percents and
+  //     library-defined specifiers, which raw 3-token strings cannot reach
+  {
+    static const char* kUnit[] = {"x", "s", "Y", "E", ":", "z", "S", " ", "\xc3\xa9", "%%", "%%%%",
+                                  "%Y", "%m", "%d", "%e", "%H", "%M", "%S", "%z", "%Z", "%s", "%Ez", "%E*z", "%:z", "%::z", "%:::z", "%E3S", "%E*S", "%E0f", "%E*f", "%E4Y", "%ET", "%U", "%W", "%u", "%w", "%E15S", "%E18f",
+                                  "%a", "%b", "%j", "%c", "%x", "%y", "%p", "%I", "%Ey", "%Od", "%_H",
+                                  "%", "%E", "%:", "%E*", "%E4", "%::"};
+    const int nu = static_cast<int>(sizeof(kUnit) / sizeof(kUnit[0]));
+    const size_t npanel = a.thorough() ? P.size() : 4;
+    for (int len = 2; len <= 3; ++len) {
+      long long tot = 1;
+      for (int i = 0; i < len; ++i) tot *= nu;
+      for (long long v = 0; v < tot; ++v) {
+        if ((idx++ % nshards) != shard) continue;
+        std::string fmt;
+        long long x = v;
+        for (int i = 0; i < len; ++i) { fmt += kUnit[x % nu]; x /= nu; }
+        if ((v & 0x3ff) == 0) { hz::begin_case(900000000LL + v, "C08 units " + hz::jstr(fmt)); if (a.time_up()) { r.exhaustive = false; r.note("deadline in C08 unit sequences"); return; } }
+        for (size_t pi = 0; pi < npanel; ++pi) c08_one(fmt, P[(pi * 3 + static_cast<size_t>(v)) % P.size()], r);
+      }
+    }
+  }
   // documented specifiers each alone and in the RFC3339/RFC1123 combinations, on EVERY zone and probe
   if (shard == 0) {
     const char* docs[] = {"%Y", "%m", "%d", "%e", "%H", "%M", "%S", "%z", "%Z", "%s", "%%", "%Ez", "%E*z", "%:z", "%::z", "%:::z", "%E0S", "%E3S", "%E15S", "%E16S", "%E*S", "%E3f", "%E*f", "%E4Y", "%ET", "%U", "%W", "%u", "%w",
@@ -385,6 +408,32 @@ static void c09_run(int shard, int nshards, const hz::Args& a, hz::Result& r) {
       c09_one("%Y-%m-%d %H:%M:%S%z", std::string(z.in) + "+0000", *zone(z.zone), r, "zone-interaction");
       c09_one("%Y-%m-%d %H:%M:%S%Ez", std::string(z.in) + "-23:59", *zone(z.zone), r, "zone-interaction");
       c09_one("%Y-%m-%d %H:%M:%S%E*z", std::string(z.in) + "+23:59:59", *zone(z.zone), r, "zone-interaction");
+    }
+  }
+  // (c2) every zone's recorded transitions: the civil seconds displayed just before / at each one, the
+  //      ":60" spelling of a second-59 (rolls INTO the transition), and a second inside the gap/overlap
+  {
+    for (size_t zi = 0; zi < g_zones.size(); ++zi) {
+      const TZ& z = g_zones[zi];
+      if (z.probes.empty()) continue;
+      for (size_t pi = 0; pi < z.probes.size(); ++pi) {
+        if (!mine()) continue;
+        const long long t = z.probes[pi];
+        const auto al = z.tz.lookup(glue::tp_of(t));
+        const Civil c = civil_of(al.cs);
+        if (c.y < -9999 || c.y > 99999) continue;
+        for (int variant = 0; variant < 4; ++variant) {
+          Civil v = c;
+          if (variant == 1) { if (c.ss != 59) continue; v.ss = 60; }
+          if (variant == 2) v = ref::civil_from_secs(ref::secs_from_civil(c) + 1800);   // half an hour later on the wall clock
+          if (variant == 3) v = ref::civil_from_secs(ref::secs_from_civil(c) - 1800);
+          char txt[80];
+          snprintf(txt, sizeof txt, "%lld-%02d-%02d %02d:%02d:%02d", static_cast<long long>(v.y), v.m, v.d, v.hh, v.mm, v.ss);
+          c09_one("%Y-%m-%d %H:%M:%S", txt, z, r, variant == 1 ? "zone-transition-leap60" : "zone-transition");
+          c09_one("%Y-%m-%d %H:%M:%E*S", std::string(txt) + ".75", z, r, variant == 1 ? "zone-transition-leap60" : "zone-transition");
+          if (variant <= 1) c09_one("%Y-%m-%d %H:%M:%S %Ez", std::string(txt) + " +01:30", z, r, "zone-transition");
+        }
+      }
     }
   }
   // (d) safety: format strings from C08's token alphabet (length <= 2) x a panel of inputs; outcome
